@@ -1,6 +1,7 @@
 """C12 — BIP340 Schnorr signatures are the specified ones; only valid ones accepted."""
 import csv
 import os
+import sys
 
 from .. import env
 from ..core import rng_for, ContractViolation
@@ -34,7 +35,8 @@ def gen_cases(tier, seed):
         d = keys[i % len(keys)] if i % 4 == 0 else rng.randrange(1, N)
         cls = ["any", "odd_y", "pk_leading_zero"][i % 3] if i % 2 else "any"
         aux = ["zeros", "ones", "rand", "omitted"][i % 4]
-        ml = [0, 1, 31, 32, 33, 64, 100, 1024][i % 8] if i % 3 else rng.randrange(0, 1025)
+        # lengths incl. those where the tagged-hash inputs (128 + len bytes) land exactly on 256 / 512 / 1024 and on SHA-256 block edges
+        ml = [0, 1, 31, 32, 33, 64, 100, 1024, 128, 384, 896, 895, 897, 960, 55, 56][i % 16] if i % 3 else rng.randrange(0, 1025)
         yield "sign", {"d": hex(d), "grind": cls, "aux": aux, "msg": rand_bytes(rng, ml).hex(), "salt": rng.getrandbits(32)}
     # signatures whose R.x has a leading zero byte (ground over aux with the reference signer): 1 in 256 otherwise
     for i in range(8 if q else 60):
@@ -42,6 +44,11 @@ def gen_cases(tier, seed):
     # families: one key / many messages and one message / many keys signed back to back in one process
     for i in range(6 if q else 60):
         yield "family", {"salt": rng.getrandbits(32), "n": 6}
+    # the hash primitives underneath (bits.crypto) against hashlib, for every length 0..1100 and around powers of two up to 2^17
+    yield "hash_lengths", {"salt": rng.getrandbits(32)}
+    # several signers / verifiers at once: results must not depend on what another thread is computing (module-level scratch state would)
+    for i in range(2 if q else 12):
+        yield "threads", {"salt": rng.getrandbits(32), "n": 3}
     # the same inputs carried in other bytes-like objects / passed by position or by keyword: a different CONTAINER or CALL FORM is not a different input
     for i in range(6 if q else 60):
         yield "arg_forms", {"salt": rng.getrandbits(32), "mlen": [0, 1, 32, 100][i % 4]}
@@ -61,7 +68,7 @@ def gen_cases(tier, seed):
 
 
 def required(tier):
-    return {"sign.decided": 120, "sign.class.odd_y": 15, "sign.class.pk_leading_zero": 10, "sign.class.aux_omitted": 20, "sign.class.rx_leading_zero": 5, "family.signs": 50, "argforms.calls": 50,
+    return {"sign.decided": 120, "sign.class.odd_y": 15, "sign.class.pk_leading_zero": 10, "sign.class.aux_omitted": 20, "sign.class.rx_leading_zero": 5, "family.signs": 50, "argforms.calls": 50, "hash.lengths": 1000, "threads.results": 20,
             "sign.badkey_refused": 6, "verify.decided": 500, "verify.expected_accept": 40, "verify.mut.pk_zero_prepended": 30,
             "verify.mut.sig_zero_before_s": 30, "verify.mut.odd_R": 10, "verify.mut.twist_forgery": 4}
 
@@ -191,6 +198,62 @@ def run_case(kind, params, ctx):
             ctx.violation(f"verify/rejects-own-signature/{cls}", f"{out}")
         if bytes(b340.pubkey(pt)) != pk:
             ctx.violation("pubkey/wrong", f"bip340.pubkey({pt})")
+        return
+    if kind == "hash_lengths":
+        import hashlib as _hl
+        import bits.crypto as bcr
+        rng = rng_for("C12h", params["salt"])
+        lens = list(range(0, 1101)) + [v for kk in range(11, 18) for v in ((1 << kk) - 1, 1 << kk, (1 << kk) + 1)] + [3 * 1024, 65536 + 1024, 70000]
+        base = rand_bytes(rng, max(lens))
+        for L in lens:
+            b = base[:L]
+            ctx.count("hash.lengths")
+            try:
+                ok = bytes(bcr.sha256(b)) == _hl.sha256(b).digest() and bytes(bcr.hash256(b)) == _hl.sha256(_hl.sha256(b).digest()).digest()
+            except Exception as e:
+                ok = False
+            if not ok:
+                ctx.violation(f"hash-primitive-wrong/len%{'1024==0' if L and L % 1024 == 0 else ('64==0' if L and L % 64 == 0 else 'other')}", f"bits.crypto.sha256/hash256 of a {L}-byte input differs from hashlib")
+        ctx.nontrivial()
+        return
+    if kind == "threads":
+        import threading
+        rng = rng_for("C12t", params["salt"])
+        jobs = []
+        for _ in range(params["n"]):
+            d = rng.randrange(1, N)
+            m, a = rand_bytes(rng, 32), rand_bytes(rng, 32)
+            sk = d.to_bytes(32, "big")
+            jobs.append((sk, secp.pub(d)[0].to_bytes(32, "big"), m, a, rs.sign(sk, m, a)))
+        out = {}
+
+        def work(i):
+            sk, pk, m, a, exp = jobs[i]
+            res = []
+            for _ in range(2):
+                try:
+                    res.append(("sign", bytes(b340.sign(sk, m, a)) == exp))
+                except Exception as e:
+                    res.append(("sign", f"{type(e).__name__}: {e}"))
+                res.append(("verify",) + _lib_verify(pk, m, exp)[:1])
+            out[i] = res
+        old = sys.getswitchinterval()
+        sys.setswitchinterval(1e-5)
+        try:
+            ts = [threading.Thread(target=work, args=(i,)) for i in range(len(jobs))]
+            [t.start() for t in ts]
+            [t.join(300) for t in ts]
+        finally:
+            sys.setswitchinterval(old)
+        ctx.count("threads.runs")
+        ctx.nontrivial()
+        for i, res in out.items():
+            for what, ok in res:
+                ctx.count("threads.results")
+                if ok is not True:
+                    ctx.violation(f"concurrent/{what}-wrong", f"{len(jobs)} threads signing/verifying different keys at once: {what} in thread {i} -> {ok!r} (single-threaded result is correct)")
+        if len(out) != len(jobs):
+            ctx.violation("concurrent/thread-did-not-finish", f"{len(out)}/{len(jobs)}")
         return
     if kind == "arg_forms":
         rng = rng_for("C12a", params["salt"])
